@@ -4,7 +4,7 @@ KANI = "Kani 0.68 function contracts / loop-free full-domain harnesses over CBMC
 
 ENGINES = [
     {"name": "kani-contracts", "path": "/verif/tools/run_check.py",
-     "serves_properties": ["C01", "C08", "C09", "C11", "C12", "C13", "C14", "C15", "C17", "C22", "C23", "C29", "C30", "C31", "C36"],
+     "serves_properties": ["C01", "C08", "C09", "C11", "C12", "C13", "C14", "C15", "C17", "C22", "C23", "C24", "C29", "C30", "C31", "C36"],
      "kind_free_text": KANI},
     {"name": "verus+kani", "path": "/verif/tools/extract.py",
      "serves_properties": ["C02", "C16"],
@@ -139,6 +139,13 @@ CLAIMED = {
         "text": "CLASSIFICATION AND EXEC-STACK PREDICATE ONLY - the AND/OR fold over SEVERAL inputs, the heart of the property, is NOT decided (hashbrown crashes the Kani compiler on the real crate and the extraction exhausts CBMC for two or more files), nor is the PT_GNU_STACK computation in layout. CBMC proves for every 32-bit property type that x86-64 and AArch64 merge it under the class GNU ld uses (generic AND/OR ranges on every target, x86 AND/OR/OR_AND ranges, AArch64 FEATURE_1_AND) and reject types outside every range; that an executable-stack request is refused exactly without -z execstack; and, for a single input, the merge result, the -z x86-64-vN OR-in and the unclassified-type error.",
         "note": "The single-input merge obligations run on a mechanical extraction with a 40-line association-list stand-in for std HashMap and itertools (listed as assumptions). One defect found and repaired (AArch64 generic ranges).",
     },
+    "C24": {
+        "category": "other",
+        "design_ref": "DESIGN.md section 6, C24",
+        "technique": "Kani bounded harnesses (arguments of 1, 2, 3 and, thorough, 5 ASCII bytes, all symbolic) on the argument-emission statement cut out of SaveDirState::write_args on every run (Route S, rule X10) together with save_dir::{write_arg_text, write_copied_file_arg}, against a transcription of POSIX sh token recognition",
+        "text": "SHELL QUOTING OF SAVED ARGUMENTS ONLY, BOUNDED by argument length - file copying, response-file contents, linker-script rewriting, thin archives and byte-identical outputs are not decided. For every argument and every copied input file name of 1, 2 or 3 ASCII bytes (5 in the thorough tier) CBMC proves on the extracted code that what wild writes into the run-with script is read back by sh as exactly one literal word with the original bytes - no word splitting, expansion, globbing, command separator or redirection - and that response-file text, which wild reads itself, is written byte for byte. The escaping is byte-local, so short arguments exercise every byte and every adjacent pair; arbitrary lengths are not proved. One defect was found and repaired (only blank, $ and backslash were escaped, copied file names not at all).",
+        "note": "Trusted: the hand transcription of POSIX sh quoting/token recognition restricted to backslash escapes and single quotes (every other shell-special byte counts as breaking the word). Not covered: bytes >= 0x80 (written through unchanged), the script's own unquoted $D / $OUT expansions (a save directory whose path contains blanks), empty arguments (std::path::absolute rejects them: the save fails with an error), arguments inside response files (re-read by wild's own tokenizer, which splits on blanks).",
+    },
     "C31": {
         "category": "proof",
         "design_ref": "DESIGN.md section 6, C31",
@@ -149,7 +156,7 @@ CLAIMED = {
 }
 
 # properties whose check has run green on the unchanged tree (only these are claimed)
-READY = {"C01", "C02", "C09", "C12", "C13", "C14", "C16", "C17", "C08", "C11", "C15", "C22", "C23", "C29", "C30", "C31", "C36"}
+READY = {"C01", "C02", "C09", "C12", "C13", "C14", "C16", "C17", "C08", "C11", "C15", "C22", "C23", "C24", "C29", "C30", "C31", "C36"}
 
 PENDING = {
     pid: "check under construction in this session (planned claim, see DESIGN.md section 6); not claimed until its obligations run green"
@@ -167,7 +174,6 @@ NOT_APPLICABLE = {
     "C19": "a statement about file-system state (which paths are created/modified); outside any function contract",
     "C20": "depends on mtime sampling order against an external writer (history property)",
     "C21": "a statement about what another process sees through execve/mmap; OS semantics",
-    "C24": "the oracle is POSIX sh word splitting plus file-system state; the quoting is an inline loop inside an I/O-bound function",
     "C25": "'every file the link read' is a history property of I/O plumbing through lib.rs",
     "C26": "quantifies over schedules (same reason as C06)",
     "C27": "relational property of two whole links",
